@@ -297,6 +297,50 @@ def _iterator_range_root(hf, site):
     return None
 
 
+def check_no_candidate_removed(rep, prog, rule='R01f'):
+    """no candidate cycle is taken out of a collection unless it is an exact duplicate (same tree AND same closing edge): two candidates with the
+    same closing edge and weight in different trees are different circuits, and the isometric / FVS collections keep exactly one representative
+    of each needed circuit.  Applies to every function of the library that removes from a container of CandidateCycle."""
+    n = 0
+    for fn in prog.functions:
+        if fn.implicit or fn.body is None or not (fn.file.startswith(env.REPO + '/include') or fn.file.startswith(env.WITNESS + '/positive')):
+            continue
+
+        def is_cand_vec(o):
+            t = prog.base_type(o.strip_all().j.get('t')) if o is not None else None
+            c = (t or {}).get('canon') or ''
+            return 'CandidateCycle' in c and (t or {}).get('rec') in ('std::vector', 'std::deque', 'std::list')
+        for m in fn.walk():
+            rem = None
+            if m.k == 'CXXMemberCallExpr' and m.callee and m.callee['name'] in ('erase', 'pop_back', 'resize', 'unique', 'remove_if') and is_cand_vec(m.object_arg()):
+                rem = m
+            if rem is None:
+                continue
+            if m.callee['name'] in ('pop_back', 'resize') and not m.args():
+                pass
+            n += 1
+            what = 'no candidate cycle is removed from a collection unless it duplicates another one exactly (same tree and same closing edge)'
+            uniq = [x for x in m.walk() if x.k == 'CallExpr' and x.callee and x.callee['g'] == 'std::unique']
+            okeq = False
+            if uniq and len(uniq[0].args()) >= 3:
+                lam = uniq[0].args()[2].strip_all()
+                fields = set()
+                for op in (lam.j.get('lambda_ops', ()) if lam.k == 'LambdaExpr' else ()):
+                    lf = prog.fn_of_fref(op)
+                    for x in (lf.walk() if lf is not None else ()):
+                        if x.k == 'CXXMemberCallExpr' and x.callee and x.callee['name'] in ('tree', 'edge', 'weight'):
+                            fields.add(x.callee['name'])
+                okeq = {'tree', 'edge'} <= fields
+            if okeq:
+                rep.ok(rule, m, fn, what, 'only exact duplicates (same tree and same edge) are removed')
+            else:
+                rep.violation(rule, m, fn, what,
+                              '`%s` removes candidates that are not exact duplicates: candidates with the same closing edge (and weight) rooted at different trees are '
+                              'different circuits; with weight ties a circuit the minimum basis needs disappears from the collection' % m.text(50),
+                              key='%s|%s|removed' % (rule, fn.g))
+    return n
+
+
 def check_program(rep, prog):
     n = 0
     for fn in prog.functions:
@@ -577,8 +621,10 @@ def run(rep, tier):
     n = 0
     from . import c07 as _c07
     rep.rule('R07k', 'numeric_limits<T>::infinity() only for floating-point T (0 for integral weight types: tree distances and candidate weights collapse)', floor=0)
+    rep.rule('R01f', 'no candidate is removed from a collection unless it is an exact (tree, edge) duplicate', floor=0)
     for prog in progs.values():
         _c07.r07k(rep, prog, only_files=('lex_dijkstra', 'detail/util.hpp', 'sptrees', 'cycles.hpp', 'fvs.hpp'))
+        check_no_candidate_removed(rep, prog)
         n += check_program(rep, prog)
         r14e(rep, prog)
         check_live_references(rep, prog)
